@@ -227,6 +227,32 @@ def r2_matchers(a, tier):
         floor=3000,
     )
     impls = ['tatsu.input.textlines.TextLinesCursor', 'tatsu.input.buffer.BufferCursor', 'tatsu.input.buffer.Buffer']
+    # the name tests are functions of the token and of THIS input's configuration: match / is_name / is_name_char keep no
+    # table of their own (a store into anything but a local or the position would make one parse's namechars decide another's)
+    impure = False
+    for c in impls:
+        for mname in ('match', 'is_name', 'is_name_char'):
+            f = a.p.func(f'{c}.{mname}')
+            for n in walk_no_defs(f.node):
+                bad = None
+                if isinstance(n, (ast.Assign, ast.AugAssign, ast.AnnAssign, ast.Delete)):
+                    for t in (n.targets if isinstance(n, (ast.Assign, ast.Delete)) else [n.target]):
+                        if isinstance(t, ast.Subscript) and not isinstance(t.value, ast.Name):
+                            bad = norm(t)
+                        if isinstance(t, ast.Attribute) and t.attr not in ('pos', '_pos'):
+                            bad = norm(t)
+                elif isinstance(n, ast.Call) and isinstance(n.func, ast.Attribute) and n.func.attr in (
+                        'setdefault', 'update', 'add', 'append', 'pop', 'clear', '__setitem__') and not isinstance(n.func.value, ast.Name):
+                    bad = norm(n)[:60]
+                if bad:
+                    impure = True
+                    rep.fail(f.qualname, f'matcher-state:{mname}', f'{c.split(".")[-1]}.{mname}() stores into `{bad}`: the answer for a token is '
+                             f'remembered outside the call, so it no longer depends only on the token and on the @@namechars / nameguard '
+                             f'of the input being parsed (a later parse with other settings gets the earlier answer)',
+                             f'{f.module.relpath}:{n.lineno}')
+            rep.add({'matcher': f.qualname, 'keeps_no_state_of_its_own': not impure})
+    if impure:
+        return rep
     alpha = 'aA+'
     texts = [''.join(t) for k in range(0, 4) for t in itertools.product(alpha, repeat=k)]
     tokens = [''.join(t) for k in (1, 2) for t in itertools.product(alpha, repeat=k)]
